@@ -1211,6 +1211,7 @@ func runC03(c *core.Ctx) core.Meta {
 	checkInlineIntegerReadWhole(c, []string{emuPkg, wfPkg})
 	checkNoneFoundValue(c, handlers)
 	checkI24SourcesSignExtended(c, handlers)
+	checkLDSBoundBeforeEveryRun(c)
 	// R03.47: the value a load hands to a lane is built from that lane's bytes only (c06scratch.go, R06.scratch)
 	checkScratchPerLane(c, "R03.47", []string{emuPkg, cdna3Pkg})
 	checkImmediateArithmeticWide(c, "R03.44", []string{emuPkg, cdna3Pkg}, 6, "A branch handler that multiplies in int16 sends far branches to the wrong address")
